@@ -112,7 +112,11 @@ ServiceSheets(mid) ==
      Svc("r2", "c", "a", "mode 2", Num(375, 1), Num(-15, 1), B, <<"r1">>, <<mid>>, "yes", B)>>,
    <<Svc("1", "a", "c", "mode 1", Num(5, -1), Num(125, 2), Num(76, 0), <<"2", "3">>, <<>>, "", Num(4, -2)),
      Svc("2", "c", "a", "", Num(625, 1), B, B, <<"1">>, <<>>, "Yes", Num(1, -2)),
-     Svc("3", "a", mid, "mode 1", Num(5, -1), Num(0, 0), B, <<"1">>, <<>>, "no", Num(1, -2))>>}
+     Svc("3", "a", mid, "mode 1", Num(5, -1), Num(0, 0), B, <<"1">>, <<>>, "no", Num(1, -2))>>,
+   \* the same intermediate site b (an amplifier site in the ring base) crossed in both directions by rows of one sheet
+   <<Svc("f", "a", "c", "mode 1", Num(5, -1), B, B, <<>>, <<"b", "c">>, "no", Num(1, -2)),
+     Svc("g", "c", "a", "mode 1", Num(5, -1), B, B, <<"f">>, <<"b", "a">>, "no", Num(1, -2)),
+     Svc("h", "a", "c", "", Num(75, 0), B, B, <<>>, <<"b", "c">>, "", Num(1, -2))>>}
 ServiceWorkbooks0 ==
   {Mk(Shapes[s], f, combo, svc) : s \in {2, 4}, f \in {[a |-> "ROADM", b |-> "ROADM", c |-> "ROADM"]},
                                   combo \in {<<0, 0, FALSE>>, <<1, 1, FALSE>>}, svc \in ServiceSheets("b")}
@@ -161,7 +165,10 @@ ModelRequests(w) ==
                 mode |-> IF r.mode = "" THEN "~null" ELSE r.mode, spacing |-> Times1e9(r.spacing),
                 bandwidth |-> IF r.bw.t = "absent" THEN Num(0, 0) ELSE Times1e9(r.bw), nch |-> Dflt(r.nch, Null),
                 power_udbm |-> IF r.power.t = "absent" THEN -9999 ELSE r.power.m * (10 ^ (6 - r.power.s)),
-                include |-> [j \in 1..Len(r.path) |-> "roadm " \o r.path[j]],
+                include |-> [j \in 1..Len(r.path) |->
+                               IF EffType(w, r.path[j]) = "ROADM" THEN "roadm " \o r.path[j]
+                               ELSE LET os == Others(w, r.path[j])      \* amplifier site: the element of this direction
+                                    IN LineName(w, r.path[j], IF r.path[j + 1] = os[2] THEN "west" ELSE "east", os[1])],
                 hops |-> [j \in 1..Len(r.path) |-> IF r.loose \in {"", "yes", "Yes", "YES"} THEN "LOOSE" ELSE "STRICT"]]],
    sync |-> LET ws == SelectSeq(w.services, LAMBDA r : r.disjoint # <<>>) IN
             [k \in 1..Len(ws) |-> [id |-> ws[k].id, ids |-> <<ws[k].id>> \o ws[k].disjoint]]]
